@@ -209,29 +209,33 @@ Definition set_blank (s : st) (b : Z) : st :=
 Definition counted_legacy (x : input) (stt : Z) : bool :=
   ((i_type x =? TYPE_MONOSTABLE) && (stt =? STATE_ACTIVE)) || toggles x.
 
+(* the part of supla_esp_input_legacy_state_change_handling after the CFG-button block *)
+Definition legacy_tail (s : st) (i : Z) (x : input) (stt : Z) : st * list out :=
+  let t := now32 s in
+  if stt =? STATE_ACTIVE then
+    (set_input s i (upd_in x (i_last x) (i_cnt x) t (hold_enabled x) false), [])
+  else if cfgbtn_enabled s x && (0 <? i_cnt x) && (3000000 <? u32 (t - entertime s)) && can_exit s x
+    then restart (set_input s i x) 0
+  else (set_input s i x, []).
+Definition legacy_count (s : st) (x : input) (stt : Z) : Z :=
+  if 2000000 <=? u32 (now32 s - i_lsc x) then 1
+  else if counted_legacy x stt then s8 (i_cnt x + 1) else i_cnt x.
 (* supla_esp_input_legacy_state_change_handling; x already has last := stt and the timer disarmed *)
 Definition legacy_change (s : st) (i : Z) (x : input) (stt : Z) : st * list out :=
   let t := now32 s in
-  let go_on (x : input) :=           (* the part after the CFG-button block *)
-    if stt =? STATE_ACTIVE then
-      (set_input s i (upd_in x (i_last x) (i_cnt x) t (hold_enabled x) false), [])
-    else if cfgbtn_enabled s x && (0 <? i_cnt x) && (3000000 <? u32 (t - entertime s)) && can_exit s x
-      then restart (set_input s i x) 0
-    else (set_input s i x, []) in
   if cfgbtn_enabled s x then
     if negb (cfgmode s) then
-      let cnt := if 2000000 <=? u32 (t - i_lsc x) then 1
-                 else if counted_legacy x stt then s8 (i_cnt x + 1) else i_cnt x in
+      let cnt := legacy_count s x stt in
       if toggle_enabled x && (PRESS_COUNT <=? cnt) then
         input_start_cfg (set_input s i (upd_in x (i_last x) 0 (i_lsc x) false false))
-      else go_on (upd_in x (i_last x) cnt (i_lsc x) false false)
+      else legacy_tail s i (upd_in x (i_last x) cnt (i_lsc x) false false) stt
     else if counted_legacy x stt then
       let x1 := upd_in x (i_last x) 1 (i_lsc x) false false in
       if negb (hold_enabled x) && (3000000 <? u32 (t - entertime s)) && can_exit s x
       then restart (set_input s i x1) 0
-      else go_on x1
-    else go_on x
-  else go_on x.
+      else legacy_tail s i x1 stt
+    else legacy_tail s i x stt
+  else legacy_tail s i x stt.
 
 (* supla_esp_input_advanced_state_change_handling *)
 Definition advanced_change (s : st) (i : Z) (x : input) (stt : Z) : st * list out :=
